@@ -20,6 +20,10 @@ type c01Op struct {
 	Kind    string `json:"kind"`
 	Nonce   string `json:"nonce"`
 	DelayMs int    `json:"delay_ms,omitempty"`
+	// Impatient > 0: the caller gives this call up (cancels its context) after that many scheduler
+	// steps of a canceller task; the call may then fail, every other call is judged as usual
+	Impatient    int  `json:"impatient,omitempty"`
+	AfterHandler bool `json:"after_handler,omitempty"`
 }
 
 func errClass(err error) string {
@@ -70,8 +74,10 @@ func runC01(c *Ctx) {
 	} else {
 		s.Net.Faults = sim.NetFaults{Delay: t.Pick(0, 10), ShortRead: t.Pick(0, 20)}
 	}
+	impatient := t.Bool(35)
 	c.SetPlan("mode", mode)
 	c.SetPlan("faulty", faulty)
+	c.SetPlan("impatient_callers", impatient)
 
 	type callRec struct {
 		client string
@@ -108,6 +114,15 @@ func runC01(c *Ctx) {
 				if op.Kind == "tool" {
 					op.DelayMs = t.Pick(0, 0, 1, 7)
 				}
+				if impatient && t.Bool(25) {
+					op.Impatient = 1 + t.Draw(60)
+					if t.Bool(60) {
+						// give up around the moment the answer travels back: wait for the handler to
+						// have run, then a few more steps
+						op.Impatient = 1 + t.Draw(16)
+						op.AfterHandler = true
+					}
+				}
 				ops = append(ops, op)
 			}
 			scripts = append(scripts, ops)
@@ -129,6 +144,23 @@ func runC01(c *Ctx) {
 						calls = append(calls, rec)
 						c.mu.Unlock()
 						ctx, cancel := context.WithTimeout(context.Background(), 5*time.Minute)
+						if op.Impatient > 0 {
+							s.Go(fmt.Sprintf("%s/caller%d/giveup-%s", cl.Name, k, op.Nonce), func() {
+								if op.AfterHandler {
+									for i := 0; i < 4000 && w.Count.Get(op.Kind+":"+op.Nonce) == 0; i++ {
+										s.Yield("giveup#handler")
+										if i%50 == 49 {
+											s.Sleep(time.Millisecond)
+										}
+									}
+								}
+								for i := 0; i < op.Impatient; i++ {
+									s.Yield("giveup#wait")
+								}
+								cancel()
+								s.Probe("c01.gave_up")
+							})
+						}
 						switch op.Kind {
 						case "tool":
 							res, err := cl.API.CallTool(ctx, callToolReq("echo", map[string]interface{}{"nonce": op.Nonce, "delay_ms": float64(op.DelayMs)}))
@@ -251,6 +283,8 @@ func runC01(c *Ctx) {
 			if n != 1 {
 				s.Violate(fmt.Sprintf("C01|result-without-handler|mode=%s|kind=%s", mode, r.op.Kind), "call nonce %s returned a result but the handler ran %d times", r.op.Nonce, n)
 			}
+		} else if r.op.Impatient > 0 && errClass(r.err) == "canceled" {
+			s.Probe("c01.gave_up_and_failed")
 		} else if !faulty {
 			s.Violate(fmt.Sprintf("C01|call-failed|mode=%s|kind=%s|%s", mode, r.op.Kind, errClass(r.err)),
 				"fault-free run: %s call nonce %s on %s failed: %v (handler ran %d times)", r.op.Kind, r.op.Nonce, r.client, r.err, n)
